@@ -195,7 +195,62 @@ ERROR_MAP = {
 }
 
 
+def opus_rule(prog, run):
+    from .. import flow as _flow
+    u = prog.lib
+    fns = [f for f in u.bodies if mir.norm(f).endswith("codec::opus::opus_frame_count") and not u.bodies[f]["in_test_cfg"]]
+    if len(fns) != 1:
+        run.bad("R6", "anchor opus_frame_count", "Opus frame-count decoder not found")
+        return
+    b = u.bodies[fns[0]]
+
+    def ev(x, b0, b1):
+        h = x[0]
+        if h == "const":
+            return int(x[1])
+        if h == "load" and len(x) > 3 and x[3] and x[3][0][0] == "const":
+            return (b0, b1)[x[3][0][1]] if x[3][0][1] in (0, 1) else None
+        if h == "cast":
+            return ev(x[4], b0, b1)
+        if h == "bin":
+            a, c = ev(x[2], b0, b1), ev(x[3], b0, b1)
+            if a is None or c is None:
+                return None
+            return {"BitAnd": a & c, "BitOr": a | c, "Shr": a >> c, "Shl": (a << c) & 0xFF, "Ne": int(a != c), "Eq": int(a == c), "Gt": int(a > c), "Lt": int(a < c), "Ge": int(a >= c), "Le": int(a <= c), "Add": a + c, "Sub": a - c}.get(x[1])
+        return None
+    want = {0: lambda b1: (1, 0), 1: lambda b1: (2, 0), 2: lambda b1: (2, 1), 3: lambda b1: (b1 & 0x3F, b1 >> 7)}
+    seen = {}
+    for ex in _flow.exits(b):
+        nd = ex["node"]
+        if ex["kind"] != "ok" or "rv" not in nd:
+            continue
+        v = sym.expr_rv(b, nd["rv"])
+        if not (v[0] == "agg" and v[3] and v[3][0][0] == "agg" and len(v[3][0][3]) == 2):
+            run.bad("R6", "opus ok-exit shape", "a success exit does not return (frame_count, vbr)", mir.loc_of(nd))
+            continue
+        cnt, vbr = v[3][0][3]
+        code = None
+        for (s_, d, tk) in guards.guards_of(b, ex["bb"]):
+            if d[0] == "bin" and d[1] == "BitAnd" and d[3][:2] == ("const", 3) and d[2][0] == "load" and len(d[2]) > 3 and d[2][3] == (("const", 0, "usize"),) and tk[0] == "eq":
+                code = int(tk[1])
+        if code is None:
+            run.bad("R6", "opus ok-exit guard", "a success exit is not selected by the TOC code (byte0 & 3)", mir.loc_of(nd))
+            continue
+        bad = None
+        for b1 in range(256):
+            got = (ev(cnt, code, b1), ev(vbr, code, b1))
+            if got != want[code](b1):
+                bad = (b1, got, want[code](b1))
+                break
+        seen[code] = seen.get(code, 0) + 1
+        run.check(bad is None, "R6", "opus code %d" % code, "(frame count, vbr) as in RFC 6716 for all 256 values of the second byte",
+                  "for TOC code %d and second byte 0x%02x the decoder yields (count, vbr) = %s, RFC 6716 section 3.2 says %s" % ((code,) + bad) if bad else "", mir.loc_of(nd))
+    run.check(sorted(seen) == [0, 1, 2, 3] and all(v == 1 for v in seen.values()), "R6", "opus codes covered", "one success exit per TOC code 0..3", "success exits cover TOC codes %s" % sorted(seen.items()))
+
+
 def check(prog, run):
+    run.rule("R6", "Opus framing (RFC 6716 section 3.2): frame count and VBR flag per TOC code; code 3 reads M = byte1 & 0x3F, v = byte1 >> 7 (evaluated for all 256 values of the extracted expressions)")
+    opus_rule(prog, run)
     run.rule("R1", "guard table: every documented precondition has an error exit of the documented variant under the documented predicate (canonical relation incl. strictness); no undocumented explicit rejection")
     run.rule("R2", "typestate: frame-writing and finish entry points reach a success exit only on the not-finished edge")
     run.rule("R3", "error map: the total internal->public conversion equals the documented table")
